@@ -93,12 +93,15 @@ Qed.
 
 (* the accumulator before a skipped/unskipped step differs from the one after: ruled out above by constructors
    only when a is an HO; the general argument is by size *)
+Lemma hf_spine_neq L a : List.In a L -> HF (spine L) <> a.
+Proof. intros Hin E. apply size_spine_in in Hin. rewrite <- E in Hin. simpl in Hin. lia. Qed.
+
 Lemma step_grows ty a f : is_ho a = false -> skipped tb ty f = false -> step tb ty [a] f <> [a].
 Proof.
-  intros Ha Hs. unfold step. rewrite Hs. intros E. inversion E as [E1].
-  assert (Hin : List.In a (xins (HO (spine [HS (fst f)]) (spine (canon tb (snd f)))) [a])).
-  { rewrite xins_ho_sealed by exact Ha. destruct a; simpl; auto. }
-  apply size_spine_in in Hin. rewrite <- E1 in Hin at 2. simpl in Hin. lia.
+  intros Ha Hs. unfold step. rewrite Hs. intros E.
+  apply (hf_spine_neq (xins (HO (spine [HS (fst f)]) (spine (canon tb (snd f)))) [a]) a).
+  - rewrite xins_ho_sealed by exact Ha. destruct a; simpl; auto.
+  - injection E as E1. exact E1.
 Qed.
 
 Lemma step_detects' ty h fn v v' : sealed h ->
@@ -239,11 +242,11 @@ Proof. reflexivity. Qed.
 
 Lemma evs_xins x l : evs (xins x l) = Z.lxor (ev x) (evs l).
 Proof.
-  induction l as [|y t IH]; simpl; [reflexivity|].
+  induction l as [|y t IH]; [reflexivity|]. cbn [xins].
   destruct (cmp x y) eqn:E.
-  - apply cmp_eq in E. subst y. rewrite evs_cons, Z.lxor_assoc_r_l. rewrite Z.lxor_nilpotent. reflexivity.
-  - reflexivity.
-  - rewrite !evs_cons, IH, !Z.lxor_assoc. f_equal. apply Z.lxor_comm.
+  - apply cmp_eq in E. subst y. rewrite evs_cons, <- Z.lxor_assoc, Z.lxor_nilpotent, Z.lxor_0_l. reflexivity.
+  - rewrite evs_cons. reflexivity.
+  - rewrite !evs_cons, IH, <- !Z.lxor_assoc. f_equal. apply Z.lxor_comm.
 Qed.
 
 Lemma evs_app a b : evs (a ++ b) = Z.lxor (evs a) (evs b).
@@ -269,6 +272,20 @@ Proof.
   rewrite IH, (IH (f x)), Z.lxor_assoc. reflexivity.
 Qed.
 
+Lemma hash_slice n l : H (GSlice n l) = fold_left (fun h x => Z.lxor h (H x)) l 0.
+Proof. reflexivity. Qed.
+Lemma hash_map n l : H (GMap n l) = finish (fold_left (fun h kv => Z.lxor h (upd_ordered (H (fst kv)) (H (snd kv)))) l 0).
+Proof. reflexivity. Qed.
+Lemma hash_struct ty fs : H (GStruct ty fs) =
+  fold_left (fun h f => if skipped tb ty f then h else finish (Z.lxor h (upd_ordered (fnv_str (fst f)) (H (snd f))))) fs (fnv_str ty).
+Proof. reflexivity. Qed.
+Lemma ev_hf a : ev (HF (spine a)) = finish (evs a).
+Proof. reflexivity. Qed.
+Lemma ev_ho a b : ev (HO (spine a) (spine b)) = upd_ordered (evs a) (evs b).
+Proof. reflexivity. Qed.
+Lemma evs_hs s : evs [HS s] = fnv_str s.
+Proof. apply evs_single. Qed.
+
 (* for every FNV, hashUpdateOrdered and hashFinishUnordered: the hash is a function of the normal form *)
 Lemma hash_factors_l : forall v, H v = evs (canon tb v).
 Proof.
@@ -278,22 +295,22 @@ Proof.
   - intros z b. simpl. rewrite evs_single. reflexivity.
   - intros z IH. exact IH.
   - intros x IH. exact IH.
-  - intros n l IH. rewrite canon_slice, evs_xnorm. simpl.
-    induction IH as [|x l Hx _ IHl]; simpl; [reflexivity|].
-    rewrite fold_xor_shift, evs_app, IHl, Hx. reflexivity.
-  - intros n l IH. rewrite canon_map, evs_single. simpl. rewrite evs_xnorm. f_equal.
-    induction IH as [|kv l [Hk Hv] _ IHl]; simpl; [reflexivity|].
-    rewrite (fold_xor_shift2 (fun kv => upd_ordered (H (fst kv)) (H (snd kv)))), evs_cons, IHl.
-    unfold entry at 1. simpl. fold (evs (canon tb (fst kv))). fold (evs (canon tb (snd kv))). rewrite Hk, Hv. reflexivity.
-  - intros ty fs IH. rewrite canon_struct. simpl.
+  - intros n l IH. rewrite canon_slice, evs_xnorm, hash_slice.
+    induction IH as [|x l Hx _ IHl]; [reflexivity|]. cbn [fold_left map concat].
+    rewrite fold_xor_shift, evs_app, IHl, Hx, Z.lxor_0_l. reflexivity.
+  - intros n l IH. rewrite canon_map, evs_single, ev_hf, evs_xnorm, hash_map. f_equal.
+    induction IH as [|kv l [Hk Hv] _ IHl]; [reflexivity|]. cbn [fold_left map].
+    rewrite (fold_xor_shift2 (fun kv => upd_ordered (H (fst kv)) (H (snd kv)))), evs_cons, IHl, Z.lxor_0_l.
+    change (ev (entry tb kv)) with (upd_ordered (evs (canon tb (fst kv))) (evs (canon tb (snd kv)))).
+    rewrite Hk, Hv. reflexivity.
+  - intros ty fs IH. rewrite canon_struct, hash_struct.
     assert (G : forall hn hs, hn = evs hs ->
       fold_left (fun h f => if skipped tb ty f then h else finish (Z.lxor h (upd_ordered (fnv_str (fst f)) (H (snd f))))) fs hn
       = evs (fold_left (step tb ty) fs hs)).
-    { induction IH as [|f fs Hf _ IHfs]; simpl; intros hn hs E; [exact E|].
+    { induction IH as [|f fs Hf _ IHfs]; intros hn hs E; [exact E|]. cbn [fold_left].
       apply IHfs. unfold step. destruct (skipped tb ty f); [exact E|].
-      rewrite evs_single. simpl. fold (evs (xins (HO (spine [HS (fst f)]) (spine (canon tb (snd f)))) hs)).
-      rewrite evs_xins. simpl. fold (evs (canon tb (snd f))). rewrite Z.lxor_0_r, <- Hf, E. f_equal. apply Z.lxor_comm. }
-    apply G. rewrite evs_single. reflexivity.
+      rewrite evs_single, ev_hf, evs_xins, ev_ho, evs_hs, <- Hf, E. f_equal. apply Z.lxor_comm. }
+    apply G. rewrite evs_hs. reflexivity.
 Qed.
 
 (* HASH INJECTIVITY ASSUMPTION. FNV is not injective; on the values compared the property needs that distinct
